@@ -150,6 +150,7 @@ class LibRDEngine(RDEngineBase) :
     def setup(self, script) :
         
         self._script = script.copy()
+        self._simulation_unfinished = 1
         
         units_system = script.units_system.copy()
 
